@@ -99,6 +99,22 @@ Definition full_agrees (m : mres * bool * bool) (v : verdict * bool * bool) : bo
   verdict_agrees (fst (fst m)) (fst (fst v)) && Bool.eqb (snd (fst m)) (snd (fst v))
   && Bool.eqb (snd m) (snd v).
 
+(* the harness compares a model outcome with an expectation of a different shape *)
+Inductive cout :=
+| CModel (m : mres) (doc_ok guarded : bool)
+| CExpect (v : verdict) (doc_ok guarded : bool)
+| CExpectV (v : verdict).
+
+Definition run_case (T : sig_table) (c : list ty * list ty * list item) : cout :=
+  let r := run_module_full T c in CModel (fst (fst r)) (snd (fst r)) (snd r).
+
+Definition cout_agrees (a b : cout) : bool :=
+  match a, b with
+  | CModel m d g, CExpect v d' g' => verdict_agrees m v && Bool.eqb d d' && Bool.eqb g g'
+  | CModel m _ _, CExpectV v => verdict_agrees m v
+  | _, _ => false
+  end.
+
 (* ---- non-vacuity example ---- *)
 Definition ex_G : tenv := env_of [TInt; TBool; TEnum 0; TOpaque; TInt] [TInt; TEnum 0].
 Definition ex_expr : texpr :=
